@@ -15,8 +15,9 @@ import time
 import traceback
 
 
-class UnitTimeout(Exception):
-    pass
+class UnitTimeout(BaseException):
+    """Watchdog (SIGALRM).  Deliberately not an Exception: `except Exception` in the checks must not
+    turn a watchdog firing inside repository code (e.g. a slow sympy.simplify) into a violation."""
 
 
 def _alarm(signum, frame):
